@@ -218,6 +218,37 @@ def corr_layered(ctx):
                          "| M.Below -> print_string \"-0x1p+1\\n\" | M.NoIndex -> print_string \"-0x1.8p+1\\n\")" % (ml, rx.ocf(z), ml, rx.ocf(z)))
             expect.append((float(tag), float(src)))
             meta.append({"bounds": bounds, "z": z, "index_value_consistent": ok})
+        # array / list input: the result for a sequence must be the per-depth result in every order
+        # (in particular a depth exactly on an interior boundary that FOLLOWS a depth of the layer above)
+        good = []
+        for z in zs:
+            try:
+                with np.errstate(all="ignore"):
+                    good.append((float(z), float(li.index(float(z))), li.layer_at_depth(float(z))))
+            except ValueError:
+                pass
+        for _rep in range(3):
+            order = list(good)
+            rng.shuffle(order)
+            if _rep == 0:
+                order.sort(key=lambda t: -t[0])          # top-down: boundary depths follow the layer above
+            if len(order) < 2:
+                continue
+            for kind in ("array", "list"):
+                arg = np.array([o[0] for o in order]) if kind == "array" else [o[0] for o in order]
+                try:
+                    with np.errstate(all="ignore"):
+                        got_n = [float(v) for v in li.index(arg)]
+                        got_l = list(li.layer_at_depth(arg))
+                except Exception as e:
+                    got_n, got_l = None, repr(e)
+                ctx.case(key=("layered-seq", tuple(bounds), kind, tuple(o[0] for o in order)))
+                okseq = got_n is not None and all(a == o[1] for a, o in zip(got_n, order)) and all(a is o[2] for a, o in zip(got_l, order))
+                if not okseq:
+                    ctx.fail("layered-sequence:%s:%s" % (bounds, kind),
+                             "LayeredIce.index / layer_at_depth on a %s of depths %s gives %s, the per-depth scalar results are %s" % (
+                                 kind, [o[0] for o in order], got_n if got_n is not None else got_l, [o[1] for o in order]),
+                             {"kind": "layered_sequence", "bounds": bounds, "depths": [o[0] for o in order], "input": kind})
     pre = "let rec natint = function M.O -> 0 | M.S n -> 1 + natint n\n"
     old = rx.OCAML_PRELUDE
     rx.OCAML_PRELUDE = old + pre
@@ -292,6 +323,19 @@ def probes(ctx):
                     if rx.ulp_diff(s, float(arr[i])) > 2:
                         ctx.fail("index-scalar-array:%s:%r" % (cls, float(z)), "%s.index scalar %r != array entry %r at z=%r (%s)" % (cls, s, float(arr[i]), float(z), p),
                                  {"kind": "index_scalar_array", **tag, "z": float(z)})
+                    # independent reading of "the declared indices": the explicit value, else the profile at the edge
+                    if cls == "UniformIce":
+                        want_above = p["above"] if p["above"] is not None else p["n"]
+                        want_below = p["below"] if p["below"] is not None else p["n"]
+                    else:
+                        want_above = p["above"] if p["above"] is not None else p["n0"] - p["k"] * math.exp(p["a"] * hi)
+                        want_below = p["below"] if p["below"] is not None else p["n0"] - p["k"] * math.exp(p["a"] * lo)
+                    if z > hi and not close(s, want_above, 4e-16, 0):
+                        ctx.fail("index-above-declared:%s:%r" % (cls, float(z)), "%s.index(%r)=%r above the range, the declared index above is %r (%s)" % (cls, float(z), s, want_above, p),
+                                 {"kind": "index_above", **tag, "z": float(z)})
+                    if z < lo and not close(s, want_below, 4e-16, 0):
+                        ctx.fail("index-below-declared:%s:%r" % (cls, float(z)), "%s.index(%r)=%r below the range, the declared index below is %r (%s)" % (cls, float(z), s, want_below, p),
+                                 {"kind": "index_below", **tag, "z": float(z)})
                     if z > hi and s != float(obj.index_above):
                         ctx.fail("index-above:%s:%r" % (cls, float(z)), "%s.index(%r)=%r above the range is not index_above=%r" % (cls, float(z), s, obj.index_above),
                                  {"kind": "index_above", **tag, "z": float(z)})
